@@ -72,8 +72,8 @@ class World:
         self.om = {}
         m = self.om
 
-        def addint(idx, sub, flags, width):
-            val = rng.getrandbits(8 * width)
+        def addint(idx, sub, flags, width, val=None):
+            val = rng.getrandbits(8 * width) if val is None else val
             stored = (val - self.nid) & ((1 << (8 * width)) - 1) if flags & N else val
             cfg.add(var(idx, sub, flags, width, stored))
             m[(idx, sub)] = OM(idx, sub, "int", flags, width=width, val=val)
@@ -84,6 +84,9 @@ class World:
                 addint(0x2100, sub, fl, w); sub += 1
         addint(0x2104, 0, R, 4); addint(0x2104, 1, W, 4); addint(0x2104, 2, R, 2); addint(0x2104, 3, W, 1)
         addint(0x2104, 4, D | R, 4); addint(0x2104, 5, D | W, 2)
+        # direct-storage entries whose stored value is 0 (the entry's data field is the value, not a pointer)
+        addint(0x2105, 0, D | RW, 1, 0); addint(0x2105, 1, D | RW, 2, 0); addint(0x2105, 2, D | RW, 4, 0); addint(0x2105, 3, D | R, 4, 0)
+        addint(0x2105, 4, D | N | RW, 2, self.nid); addint(0x2105, 5, D | N | RW, 4, self.nid)
         # entries in the upper half of the index range (network variables, profile area)
         addint(0xA000, 0, RW, 4); addint(0xA000, 1, R, 2); addint(0xA580, 0, RW, 1); addint(0xFFFF, 0, RW, 4)
         lens = [1, 2, 3, 4, 5, 7, 8, 14, 15, 100] + ([] if small else [rng.choice([255, 256, 300]), rng.choice([888, 889, 890]), 1000])
